@@ -5,6 +5,7 @@ import (
 	"encoding/json"
 	"fmt"
 	"sort"
+	"strings"
 
 	"github.com/ipld/go-ipld-prime/codec/dagcbor"
 	"github.com/ipld/go-ipld-prime/codec/dagjson"
@@ -440,6 +441,33 @@ func replaySchemaCase(cs *SchemaCase, eng Engine, roundTrip bool) (*run.Finding,
 		} else if ferr == nil {
 			got, _ := model.Project(n)
 			return fail("build", rule, "accepted", fmt.Sprintf("fed %v: built %v", in, got)), checks, extra
+		}
+		// The second route into the same builder: the tree as a finished node of ANOTHER implementation, handed over
+		// with AssignNode (maps then arrive through AssembleKey / AssembleValue, as with datamodel.Copy).  Same verdict.
+		var n2 datamodel.Node
+		var aerr error
+		p2 := model.Safe(func() {
+			nb := np.NewBuilder()
+			aerr = nb.AssignNode(model.NewForeign(in, model.Conc{}))
+			if aerr == nil {
+				n2 = nb.Build()
+			}
+		})
+		checks++
+		rule2 := strings.Replace(rule, "-builder:", "-builder(AssignNode of a foreign node):", 1)
+		if p2 != nil {
+			return fail("build", rule2, "panic", fmt.Sprintf("fed %v: %v", in, p2)), checks, extra
+		}
+		if cs.Ok {
+			if aerr != nil {
+				return fail("build", rule2, "rejected", fmt.Sprintf("fed %v: %v", in, aerr)), checks, extra
+			}
+			if f := checkAccepted(n2, "AssignNode("+level+")"); f != nil {
+				return f, checks, extra
+			}
+		} else if aerr == nil {
+			got, _ := model.Project(n2)
+			return fail("build", rule2, "accepted", fmt.Sprintf("fed %v: built %v", in, got)), checks, extra
 		}
 	}
 	// encode the representation, decode through the representation builder, encode again
